@@ -1,4 +1,5 @@
 """C14 -- clocks: correspondence of the SimulatedClock model with sismic/clock/clock.py."""
+import os
 import random
 import sys
 import time
@@ -119,7 +120,7 @@ Open Scope Q_scope.
 def main(tier, seed):
     t0 = time.time()
     v = Verdict(PROP)
-    sys.path.insert(0, '/repo')
+    sys.path.insert(0, os.environ.get('VERIF_REPO', '/repo'))
     info = proof_stage(PROP, PROOF_FILES, v)
     rng = random.Random(seed * 7919 + 14)
     n_atomic = 1500 if tier == 'quick' else 20000
